@@ -72,7 +72,7 @@ def check_table(ctx, rep, rid, adt, table, allow_in=()):
                        None if ok else '`%s.%s` is written by a function that is not one of its confirmed writers (%s)' % (adt.split('::')[-1], field, sorted(per_fn)))
 
 
-def call_arg_forms(ctx, fn, callee_suffix, skip_self=True):
+def call_arg_forms(ctx, fn, callee_suffix, skip_self=True, cd=1):
     """[(line, 'arg1, arg2, ...')] canonical argument forms of every user call in fn (and its closures) to a callee
     whose name ends with callee_suffix"""
     from mir import canon
@@ -84,11 +84,11 @@ def call_arg_forms(ctx, fn, callee_suffix, skip_self=True):
             if c.x.startswith('m:') or not (c.name.endswith('::' + callee_suffix) or c.name == callee_suffix):
                 continue
             args = c.args[1:] if skip_self else c.args
-            out.append((c.ln, ', '.join(canon(b.pexpr_operand(a), 0, 1) for a in args), b))
+            out.append((c.ln, ', '.join(canon(b.pexpr_operand(a), 0, cd) for a in args), b))
     return out
 
 
-def check_call_args(ctx, rep, rid, table, skip_self=True):
+def check_call_args(ctx, rep, rid, table, skip_self=True, cd=1):
     """table: {fn: {callee_suffix: [expected 'a, b' forms (set)]}}: every call must use an expected form, every expected
     form must be used"""
     for fn, per in table.items():
@@ -96,7 +96,7 @@ def check_call_args(ctx, rep, rid, table, skip_self=True):
             rep.anchor_lost(rid, fn)
             continue
         for callee, expected in per.items():
-            got = call_arg_forms(ctx, fn, callee, skip_self)
+            got = call_arg_forms(ctx, fn, callee, skip_self, cd)
             matched = set()
             for ln, form, b in got:
                 m = _match(form, expected)
@@ -108,3 +108,37 @@ def check_call_args(ctx, rep, rid, table, skip_self=True):
                            '%s is called with `%s`; the argument forms confirmed for this call are %s' % (callee, form, sorted(expected)))
             for form in sorted(set(expected) - matched):
                 rep.ob(rid, fn, '%s(%s)' % (callee.split('::')[-1], form), False, None, 'the call %s(%s) expected in this function is missing' % (callee, form))
+
+
+def aggregate_forms(ctx, fn, adt):
+    """[{field: canon form}] for every aggregate of type adt built in fn (and its closures)"""
+    from mir import canon
+    out = []
+    defs = [d for d in ctx.facts.body_defs() if d == fn or d.startswith(fn + '::{closure')]
+    for d in sorted(defs):
+        b = ctx.body(d)
+        for blk in sorted(b.reach):
+            for s in b.stmts(blk):
+                rv = s.get('rv')
+                if rv and rv['r'] == 'agg' and rv.get('kind') == 'adt' and rv['adt'] == adt and not s.get('x', '').startswith('m:'):
+                    e = b._pexpr_rvalue(rv, 0, frozenset())
+                    out.append(({n: canon(v, 0, 2) for n, v in e[3]}, '%s:%s' % (b.file, s.get('ln'))))
+    return out
+
+
+def check_aggregates(ctx, rep, rid, table):
+    """table: {fn: {adt: {field: expected form}}} — the (first) aggregate of adt built in fn must have these field forms"""
+    for fn, per in table.items():
+        if not ctx.has(fn):
+            rep.anchor_lost(rid, fn)
+            continue
+        for adt, want in per.items():
+            got = aggregate_forms(ctx, fn, adt)
+            if not got:
+                rep.ob(rid, fn, adt.split('::')[-1] + ' built', False, None, '%s no longer builds a %s' % (fn.split('::')[-1], adt.split('::')[-1]))
+                continue
+            fields, where = got[0]
+            for f, form in want.items():
+                ok = _match(fields.get(f, '<absent>'), [form]) is not None
+                rep.ob(rid, fn, '%s.%s = %s' % (adt.split('::')[-1], f, form), ok, where, None if ok else
+                       '%s.%s is built from `%s` (confirmed: `%s`)' % (adt.split('::')[-1], f, fields.get(f), form))
